@@ -50,6 +50,9 @@ pub fn gen_world(rng: &mut Rng, n_templates: usize, n_datas: usize, stateful: bo
             if rng.chance(1, 2) {
                 gen::inject_abort(t, rng);
             }
+            if rng.chance(1, 3) {
+                gen::inject_abort_in_capture(t, rng);
+            }
         }
         for d in partials.defs.iter_mut() {
             if let gen::PartialBody::Valid(nodes) = &mut d.body {
